@@ -1,5 +1,119 @@
-"""Mutant corpus self-test (thorough tier)."""
+"""Mutant corpus self-test (thorough tier, and `python3 bin/mutants.py` by hand).
+
+Every stored mutation of a property (hand-written ones from bin/mkmutants.py and the seeded ones kept under /verif/seeded) is applied to a scratch
+copy of the *current* /repo tree (outside /repo and /verif, removed afterwards); the rules of the property are re-run on the copy and the
+expected rule must report a violation that is not a known finding.  A patch that no longer applies is counted as skipped; an applied
+mutant that is not detected is a checker regression (exit 2 in check.py — a statement about the checker, not about /repo).
+"""
+import json
+import os
+import shutil
+import subprocess
+import sys
+import tempfile
+
+sys.path.insert(0, os.path.dirname(os.path.abspath(__file__)))
+import engine
+
+VERIF = engine.VERIF
+MUT = os.path.join(VERIF, "mutants")
 
 
-def run(prop, repo):
-    return {"ran": False, "regressions": [], "note": "corpus not built yet"}
+def corpus():
+    ip = os.path.join(MUT, "index.json")
+    if not os.path.exists(ip):
+        return {}
+    return json.load(open(ip))
+
+
+def scratch_copy(repo):
+    d = tempfile.mkdtemp(prefix="pmverif-mut-", dir=os.environ.get("PMVERIF_SCRATCH", "/tmp"))
+    for name in ("src", "Cargo.toml", "Cargo.lock", "test", "README.md"):
+        s = os.path.join(repo, name)
+        if os.path.isdir(s):
+            shutil.copytree(s, os.path.join(d, name))
+        elif os.path.exists(s):
+            shutil.copy2(s, os.path.join(d, name))
+    return d
+
+
+def apply_patch(d, patch):
+    r = subprocess.run(["patch", "-p1", "--no-backup-if-mismatch", "-s", "-f", "-i", patch], cwd=d, stdout=subprocess.PIPE, stderr=subprocess.STDOUT, text=True)
+    return r.returncode == 0, r.stdout
+
+
+def evaluate(prop, tree, configs=("all", "default")):
+    """run the property's rules on a tree; returns (violated_rules:set, notes)"""
+    import check
+    import registry
+    engine.REPO_DIR = tree
+    facts = {}
+    broken = {}
+    for c in configs:
+        try:
+            facts.update(engine.build_facts(tree, [c], target_tag="mut"))
+        except engine.EngineError as ex:
+            broken[c] = str(ex)
+    if not facts:
+        return None, "does not compile: %s" % list(broken.values())[0][-400:]
+    notes = []
+    obs, _ = check.run_rules(prop, facts, notes)
+    obs += check.check_floors(prop, obs, list(facts.keys()))
+    known = set((k["rule"], k["key"]["fn"], k["key"]["site"]) for k in check.load_known() if k["property"] == prop and k["status"] == "known")
+    bad = set(o.rule for o in obs if not o.ok and o.key() not in known)
+    if broken and registry.PROPERTIES[prop].get("needs_all_configs"):
+        bad.add("R-TWIN")
+    return bad, ("; ".join("%s broken" % c for c in broken) if broken else "")
+
+
+def run(prop, repo="/repo", only=None):
+    res = {"ran": True, "applied": 0, "detected": 0, "skipped": [], "regressions": [], "details": []}
+    for fname, meta in sorted(corpus().items()):
+        if prop not in meta["properties"]:
+            continue
+        if only and only not in fname:
+            continue
+        patch = os.path.join(MUT, fname)
+        if not os.path.exists(patch):
+            continue
+        d = scratch_copy(repo)
+        try:
+            ok, out = apply_patch(d, patch)
+            if not ok:
+                res["skipped"].append(fname)
+                res["details"].append({"mutant": fname, "status": "patch does not apply to the current tree"})
+                continue
+            bad, note = evaluate(prop, d)
+            if bad is None:
+                res["skipped"].append(fname)
+                res["details"].append({"mutant": fname, "status": "mutant does not compile on the current tree", "note": note})
+                continue
+            res["applied"] += 1
+            hit = sorted(bad & set(meta["expect_rules"]))
+            if hit:
+                res["detected"] += 1
+                res["details"].append({"mutant": fname, "status": "detected", "rules": hit, "all_fired": sorted(bad)})
+            elif bad:
+                res["detected"] += 1
+                res["details"].append({"mutant": fname, "status": "detected by another rule", "rules": sorted(bad), "expected": meta["expect_rules"]})
+            else:
+                res["regressions"].append(fname)
+                res["details"].append({"mutant": fname, "status": "NOT DETECTED", "expected": meta["expect_rules"], "note": note})
+        finally:
+            shutil.rmtree(d, ignore_errors=True)
+    engine.REPO_DIR = repo
+    return res
+
+
+if __name__ == "__main__":
+    import registry
+    props = sys.argv[1:] or sorted(registry.PROPERTIES)
+    only = None
+    tot = {"applied": 0, "detected": 0}
+    for p in props:
+        r = run(p)
+        tot["applied"] += r["applied"]
+        tot["detected"] += r["detected"]
+        for d in r["details"]:
+            print(p, d["mutant"], d["status"], d.get("rules", ""), d.get("note", ""))
+    print(tot)
